@@ -491,6 +491,84 @@ def runHistory : Vals → List Step → Vals × List (Option (Except (Err × Opt
       | .ok w => let r := runHistory w rest; (r.1, none :: r.2)
       | .error e => let r := runHistory (invertLeft v) rest; (r.1, some (.error (e, none)) :: r.2)
 
+def Vals.get (v : Vals) : Q → Option Rat
+  | .count => v.count.map (fun n => (n : Rat))
+  | .start => v.start
+  | .end_ => v.end_
+  | .c2c => v.c2c
+  | .total => v.total
+
+/-! ### a `Chop` object with its `preserve` field and its `results`; `copy_preserving`
+
+`copy_preserving(inverted)` builds a NEW chop from the count and the preserved quantity of the last `results`
+and inverts that new chop; the object it is called on is not touched. -/
+
+structure Obj where
+  params : Vals
+  /-- `Chop.preserve` -/
+  preserve : Q := .c2c
+  /-- `Chop.results` of the last `calculate` that returned (`none`: never calculated, or the last one raised) -/
+  last : Option Vals := none
+  deriving Repr
+
+/-- `Chop.invert` moves a preserved size to the other end -/
+def swapPreserve : Q → Q
+  | .start => .end_
+  | .end_ => .start
+  | q => q
+
+/-- the chop `copy_preserving(inverted)` returns (its five fields after `__post_init__` and the inversion) -/
+def copyPreserving (ob : Obj) (inverted : Bool) : Except Err Vals :=
+  match ob.last with
+  | none => .error .unmodelled
+  | some res =>
+      match res.count, res.get ob.preserve with
+      | some n, some x =>
+          let c : Vals := Vals.assign { count := some (max n 1) } ob.preserve x
+          let c := if ob.preserve = .count then { c with c2c := some 1 } else c
+          if inverted then invert c else pure c
+      | _, _ => .error .unmodelled
+
+inductive OStep where
+  /-- `calculate`, `invert` or an assignment on the object itself -/
+  | plain (s : Step)
+  /-- `c = chop.copy_preserving(inverted); c.calculate(L)` -/
+  | copy (inverted : Bool) (t : Tol) (L : Rat) (o : Oracle)
+  deriving Repr
+
+abbrev Outcome := Option (Except (Err × Option Rel) Vals)
+
+/-- one call on the object itself: the parameters move as in `runHistory`; `results` and `preserve` are kept up to date -/
+def Obj.step (ob : Obj) (s : Step) : Obj × Outcome :=
+  let r := runHistory ob.params [s]
+  let out : Outcome := r.2.headD none
+  match s with
+  | .eval _ _ _ =>
+      ({ ob with params := r.1, last := match out with | some (.ok res) => some res | _ => none }, out)
+  | .invert =>
+      ({ ob with params := r.1, preserve := match out with | none => swapPreserve ob.preserve | some _ => ob.preserve }, out)
+  | .assign _ _ => ({ ob with params := r.1 }, out)
+
+/-- a history with copies: a `copy` step answers with the evaluation of the copy and leaves the object as it is -/
+def runObj : Obj → List OStep → Obj × List Outcome
+  | ob, [] => (ob, [])
+  | ob, .plain s :: rest =>
+      let r := ob.step s
+      let tl := runObj r.1 rest
+      (tl.1, r.2 :: tl.2)
+  | ob, .copy inv t L o :: rest =>
+      let out : Outcome := match copyPreserving ob inv with
+        | .ok c => some (calculate t L o c)
+        | .error e => some (.error (e, none))
+      let tl := runObj ob rest
+      (tl.1, out :: tl.2)
+
+/-- the steps on the object itself -/
+def plainSteps : List OStep → List Step
+  | [] => []
+  | .plain s :: rest => s :: plainSteps rest
+  | .copy _ _ _ _ :: rest => plainSteps rest
+
 /-! ### `Grading` -/
 
 /-- one division `[length_ratio, count, total_expansion]` -/
@@ -518,6 +596,25 @@ def inverted (spec : List Division) : Except Err (List Division) :=
   else pure (spec.reverse.map fun d => { d with total := 1 / d.total })
 
 def gradingCount (spec : List Division) : Nat := (spec.map (·.count)).sum
+
+/-- what `Grading.description` writes for blockMesh: the bare total expansion for a single division, the list of
+    `(length_ratio count total_expansion)` otherwise; an undefined grading raises -/
+inductive Written where
+  | single (total : Rat)
+  | multi (divs : List Division)
+  deriving Repr, DecidableEq
+
+def description (spec : List Division) : Except Err Written :=
+  match spec with
+  | [] => .error .value
+  | [d] => pure (.single d.total)
+  | ds => pure (.multi ds)
+
+/-- what blockMesh reads back: `(count, total expansion)` per division (a bare number: `none` for the count, taken
+    from the block's cell count) -/
+def Written.read : Written → List (Option Nat × Rat)
+  | .single T => [(none, T)]
+  | .multi ds => ds.map (fun d => (some d.count, d.total))
 
 /-! ### line protocol -/
 
@@ -668,52 +765,98 @@ def showOutcome (p : List Rel × Nat × Bool) (r : Except (Err × Option Rel) Va
   | .ok res => s!"ok {showVals res} {tail}"
   | .error (e, rel) => s!"err {e.show} at:{showOpt Rel.name rel} {tail}"
 
-/-- One step of a history in the line protocol: `calc|L|oracle|tol` or `inv|<fields observed after invert>`.
+def closeOptTol (den : Nat) (a b : Option Rat) : Bool :=
+  match a, b with
+  | none, none => true
+  | some x, some y => decide (absR (x - y) ≤ absR y / den)
+  | _, _ => false
+
+def closeValsTol (den : Nat) (a b : Vals) : Bool :=
+  decide (a.count = b.count) && closeOptTol den a.start b.start && closeOptTol den a.end_ b.end_ &&
+    closeOptTol den a.c2c b.c2c && closeOptTol den a.total b.total
+
+/-- One step of a history in the line protocol: `calc|L|oracle|tol`, `set|field|value`,
+    `inv|<fields observed after invert>` or `copy|0/1|L|oracle|tol|<fields of the copy as observed>`.
     For `inv` the model inverts the current record exactly, requires the observed record to agree with it
     (within the rounding of `1/x`) and continues with the observed one, so that later branch decisions are taken
-    on the numbers the implementation really holds. -/
-def histStep (v : Vals) (step : String) : Option (Vals × String) :=
+    on the numbers the implementation really holds; for `copy` likewise (the copy is built from `results`, which the
+    implementation holds as floats: agreement within 1e-9). -/
+def histStep (ob : Obj) (step : String) : Option (Obj × String) :=
   match step.splitOn "|" with
   | ["calc", l, orc, tol] => do
       let L ← parseRat? l
       let o ← parseOracle orc
       let t ← parseTol tol
-      let p ← plan v.known
-      match (runHistory v [.eval t L o]).2 with
-      | [some r] => some (v, showOutcome p r)
-      | _ => none
+      let p ← plan ob.params.known
+      let r := ob.step (.eval t L o)
+      match r.2 with
+      | some out => some (r.1, showOutcome p out)
+      | none => none
   | ["set", key, val] => do
       let q ← Q.ofString? key
       let x ← parseRat? val
       if q = .count ∧ ¬(x.den = 1 ∧ 1 ≤ x.num) then none
-      some ((runHistory v [.assign q x]).1, "ok " ++ showVals (runHistory v [.assign q x]).1)
-  | ["inv", obs] =>
-      match (runHistory v [.invert]).2.head? with
-      | some none => do
-          let w := (runHistory v [.invert]).1
-          let seen ← parseRecord obs
-          if closeVals w seen then some (seen, "ok " ++ showVals w) else some (w, "fail:invert-mismatch " ++ showVals w)
-      | some (some (.error (e, _))) => do
-          let w := (runHistory v [.invert]).1
-          let seen ← parseRecord obs
-          if closeVals w seen then some (seen, "err " ++ e.show) else some (w, "fail:invert-mismatch " ++ showVals w)
+      let r := ob.step (.assign q x)
+      some (r.1, "ok " ++ showVals r.1.params)
+  | ["inv", obs] => do
+      let r := ob.step .invert
+      let seen ← parseRecord obs
+      match r.2 with
+      | none =>
+          if closeVals r.1.params seen then some ({ r.1 with params := seen }, "ok " ++ showVals r.1.params)
+          else some (r.1, "fail:invert-mismatch " ++ showVals r.1.params)
+      | some (.error (e, _)) =>
+          if closeVals r.1.params seen then some ({ r.1 with params := seen }, "err " ++ e.show)
+          else some (r.1, "fail:invert-mismatch " ++ showVals r.1.params)
       | _ => none
+  | ["copy", inv, l, orc, tol, obs] => do
+      let L ← parseRat? l
+      let o ← parseOracle orc
+      let t ← parseTol tol
+      let seen ← parseRecord obs
+      let inverted ← if inv = "1" then some true else if inv = "0" then some false else none
+      match copyPreserving ob inverted with
+      | .error e => some (ob, "nocopy " ++ e.show)
+      | .ok c =>
+          if closeValsTol 1000000000 c seen then do
+            let p ← plan seen.known
+            some (ob, showOutcome p (calculate t L o seen))
+          else some (ob, "fail:copy-mismatch " ++ showVals c)
   | _ => none
 
-def histLoop : Vals → List String → Option (List String)
+def histLoop : Obj → List String → Option (List String)
   | _, [] => some []
-  | v, st :: rest => do
-      let r ← histStep v st
+  | ob, st :: rest => do
+      let r ← histStep ob st
       let tl ← histLoop r.1 rest
       some (r.2 :: tl)
 
-/-- `c03.hist chop step;step;…` → the answers of the steps joined by ` || ` -/
+/-- `c03.hist chop step;step;… [preserve]` → the answers of the steps joined by ` || ` -/
 def handleHist (args : List String) : Option String :=
   match args with
   | [chop, steps] => do
       let v ← parseChop chop
-      let out ← histLoop v (steps.splitOn ";")
+      let out ← histLoop { params := v } (steps.splitOn ";")
       some (" || ".intercalate out)
+  | [chop, steps, pres] => do
+      let v ← parseChop chop
+      let q ← Q.ofString? pres
+      let out ← histLoop { params := v, preserve := q } (steps.splitOn ";")
+      some (" || ".intercalate out)
+  | _ => none
+
+def showWritten : Written → String
+  | .single T => "single " ++ showRat T
+  | .multi ds => "multi " ++ ",".intercalate (ds.map showDivision)
+
+/-- `c03.descr d1,d2,…` (`-` for the empty grading) → what `Grading.description` must contain -/
+def handleDescr (args : List String) : Option String :=
+  match args with
+  | [spec] => do
+      let ds ← if spec = "-" then some [] else (spec.splitOn ",").mapM parseDivision
+      match description ds with
+      | .ok w => some ("ok " ++ showWritten w)
+      | .error e => some ("err " ++ e.show)
   | _ => none
 
 def parseRelName (s : String) : Option Rel :=
@@ -731,13 +874,6 @@ def Vals.set (v : Vals) (q : Q) (x : Rat) : Option Vals :=
   | .end_ => some { v with end_ := some x }
   | .c2c => some { v with c2c := some x }
   | .total => some { v with total := some x }
-
-def Vals.get (v : Vals) : Q → Option Rat
-  | .count => v.count.map (fun n => (n : Rat))
-  | .start => v.start
-  | .end_ => v.end_
-  | .c2c => v.c2c
-  | .total => v.total
 
 /-- `c03.rel out<in1+in2 L a b oracle tol`: one direct call of a relation function (must be in the generated table) -/
 def handleRel (args : List String) : Option String :=
@@ -780,6 +916,7 @@ def handle (op : String) (args : List String) : Option String :=
   | "c03.count" => handleCount args
   | "c03.rel" => handleRel args
   | "c03.hist" => handleHist args
+  | "c03.descr" => handleDescr args
   | _ => none
 
 end CBV.C03
